@@ -381,7 +381,7 @@ class Check(CheckBase):
     @staticmethod
     def _v(o, subset, cmd, want, got, sc, out):
         return {'what': f'option {o.name} set in {subset or "no source"} ({cmd}): effective value {got!r}, precedence says {want!r}',
-                'mechanism': None, 'witness': {'argv': sc['argv'], 'env': sc['env'], 'config': open(sc['argv'][sc['argv'].index('--config') + 1]).read()[:400]}}
+                'mechanism': None, 'witness': {'argv': sc['argv'], 'env': sc['env'], 'config': open(next(a for a in sc['argv'] if str(a).endswith('.toml'))).read()[:400]}}
 
     def _repository(self, case, scratch, env):
         """repository: CLI -r > REPLICAT_REPOSITORY > profile > defaults > ('local', cwd)."""
@@ -394,7 +394,10 @@ class Check(CheckBase):
                     dl = [f'repository = {json.dumps(vals["default"])}'] if 'default' in subset else []
                     pl = [f'repository = {json.dumps(vals["profile"])}'] if 'profile' in subset else []
                     cfg = self._config(scratch, idx, dl, pl)
-                    argv = COMMANDS[cmd] + (['-r', vals['cli']] if 'cli' in subset else []) + ['--config', cfg, '--profile', 'prof']
+                    # every accepted spelling of a flag is 'given on the command line': short, long, unambiguous abbreviation
+                    r_flag = ['-r', '--repository', '--repo'][idx % 3]
+                    p_flag, c_flag = ['--profile', '--prof'][(idx // 3) % 2], ['--config', '--conf'][(idx // 6) % 2]
+                    argv = COMMANDS[cmd] + ([r_flag, vals['cli']] if 'cli' in subset else []) + [c_flag, cfg, p_flag, 'prof']
                     if subset:
                         argv += ['--token', 'T']
                     envv = {'REPLICAT_REPOSITORY': vals['env']} if 'env' in subset else {}
@@ -426,15 +429,21 @@ class Check(CheckBase):
             'cli --ignore-config + --config': (ls + ['--ignore-config', '--config', '/nonexistent', '--token', 't'], None),
             'config key + key-file': (None, f'key = "k"\nkey-file = {json.dumps(pw)}\n'),
             'config password + password-file': (None, f'password = "k"\npassword-file = {json.dumps(pw)}\n'),
+            # an empty value is a value: the pair is still given twice, also across the sections of the file
+            'config empty password + password-file': (None, f'password = ""\npassword-file = {json.dumps(pw)}\n'),
+            'config empty key + key-file': (None, f'key = ""\nkey-file = {json.dumps(pw)}\n'),
+            'config empty password (default section) + password-file (profile)':
+                (None, f'password = ""\n[prof]\npassword-file = {json.dumps(pw)}\n', ['--profile', 'prof']),
             'cli add-key --shared + --clone': (['add-key'] + base + ['--ignore-config', '--token', 't', '--shared', '--clone'], None),
             'cli add-key -n + -N': (['add-key'] + base + ['--ignore-config', '--token', 't', '-n', 'a', '-N', pw], None),
         }
         scenarios, names = [], []
-        for i, (name, (argv, cfg)) in enumerate(cfgs.items()):
+        for i, (name, spec) in enumerate(cfgs.items()):
+            argv, cfg, extra = (spec + ([],))[:3] if len(spec) == 2 else spec
             if argv is None:
                 path = os.path.join(scratch, f'x{i}.toml')
                 open(path, 'w').write(cfg)
-                argv = ls + ['--config', path, '--token', 't']
+                argv = ls + ['--config', path, '--token', 't'] + list(extra)
             scenarios.append({'id': i, 'argv': argv, 'env': {}, 'cwd': env['cwd']})
             names.append(name)
         outs = self._run(scenarios, env)
